@@ -3513,7 +3513,32 @@ func (p *Posix) DeleteObjects(ctx context.Context, input *s3.DeleteObjectsInput)
 	}, nil
 }
 
-func (p *Posix) GetObject(_ context.Context, input *s3.GetObjectInput) (*s3.GetObjectOutput, error) {
+// errObjectReplaced is returned by getObject and headObject when the object
+// was replaced or removed while it was being examined. The steps of a read
+// (stat, attributes, open) go through the object's path: they only describe
+// one object if the path kept naming the same file.
+var errObjectReplaced = errors.New("object replaced during read")
+
+// readRetries bounds the attempts to read an object that keeps being replaced
+const readRetries = 10
+
+func sameObjectFile(a, b fs.FileInfo) bool {
+	return os.SameFile(a, b) && a.Size() == b.Size() && a.ModTime().Equal(b.ModTime())
+}
+
+func (p *Posix) GetObject(ctx context.Context, input *s3.GetObjectInput) (*s3.GetObjectOutput, error) {
+	var out *s3.GetObjectOutput
+	var err error
+	for i := 0; i < readRetries; i++ {
+		out, err = p.getObject(ctx, input)
+		if !errors.Is(err, errObjectReplaced) {
+			break
+		}
+	}
+	return out, err
+}
+
+func (p *Posix) getObject(_ context.Context, input *s3.GetObjectInput) (*s3.GetObjectOutput, error) {
 	if input.Bucket == nil {
 		return nil, s3err.GetAPIError(s3err.ErrInvalidBucketName)
 	}
@@ -3704,6 +3729,12 @@ func (p *Posix) GetObject(_ context.Context, input *s3.GetObjectInput) (*s3.GetO
 	if err != nil {
 		return nil, fmt.Errorf("open object: %w", err)
 	}
+	// size, attributes and data must belong to one and the same file
+	fi2, err := f.Stat()
+	if err != nil || !sameObjectFile(fi, fi2) {
+		f.Close()
+		return nil, errObjectReplaced
+	}
 
 	var checksums s3response.Checksum
 	var cType types.ChecksumType
@@ -3752,6 +3783,18 @@ func (p *Posix) GetObject(_ context.Context, input *s3.GetObjectInput) (*s3.GetO
 }
 
 func (p *Posix) HeadObject(ctx context.Context, input *s3.HeadObjectInput) (*s3.HeadObjectOutput, error) {
+	var out *s3.HeadObjectOutput
+	var err error
+	for i := 0; i < readRetries; i++ {
+		out, err = p.headObject(ctx, input)
+		if !errors.Is(err, errObjectReplaced) {
+			break
+		}
+	}
+	return out, err
+}
+
+func (p *Posix) headObject(ctx context.Context, input *s3.HeadObjectInput) (*s3.HeadObjectOutput, error) {
 	if input.Bucket == nil {
 		return nil, s3err.GetAPIError(s3err.ErrInvalidBucketName)
 	}
@@ -3933,6 +3976,13 @@ func (p *Posix) HeadObject(ctx context.Context, input *s3.HeadObjectInput) (*s3.
 		if checksums.Type != "" {
 			cType = checksums.Type
 		}
+	}
+
+	// size and attributes must belong to one and the same file
+	verifhook.At("read.restat", bucket, object)
+	fi2, err := os.Stat(objPath)
+	if err != nil || !sameObjectFile(fi, fi2) {
+		return nil, errObjectReplaced
 	}
 
 	return &s3.HeadObjectOutput{
